@@ -7,7 +7,10 @@
   tripwire, then the step (halt / error stop there), then breakpoints (a breakpoint is only tested after an executed
   instruction).  `fuel` is the usual device for an unbounded loop: theorems hold for all fuel, and results are stable
   under more fuel (`fuel_mono`), so nothing is bounded.
-  Proved: stop order; fuel monotonicity; step_over / step_out execute at least one step and stop at the first boundary
+  Proved: a run *is* a chain of single steps (`run_is_chain_of_steps` and its converse `chain_of_steps_is_run`: whenever the
+  loop returns it has made n continuing single steps — MCR on, tripwire true, normal return, no breakpoint — and one stopping
+  iteration whose reason is the first applicable of MCR off / tripwire / HALT / error / breakpoint; for every pure tripwire,
+  i.e. all public entry points); stop order; fuel monotonicity; step_over / step_out execute at least one step and stop at the first boundary
   where the depth is back to / below the start (tripwire semantics); step_out at depth 0 executes nothing;
   run_with_limit never starts an instruction once `max` have been counted; **splitting**: a limit run of a+b equals a
   limit run of a (paused by the tripwire) continued with the same total limit — for all programs, states, a, b.
@@ -154,8 +157,119 @@ theorem runWhile_epilogue (tw : Tripwire) (fuel : Nat) (s s' : Sim) (r : RunRes)
     obtain ⟨res, s2⟩ := x
     cases res <;> (simp only [Option.some.injEq, Prod.mk.injEq] at h; obtain ⟨_, rfl⟩ := h; rfl)
 
+/-! ### a run is exactly a chain of single steps -/
+
+/-- tripwires that only look at the machine (all the public ones) -/
+def PureTw (tw : Tripwire) : Prop := ∀ iter s, (tripwireEval tw iter s).2 = s
+
+theorem pure_public (start max curr : Nat) : PureTw .always ∧ PureTw (.limit start max) ∧ PureTw (.over curr) ∧ PureTw (.out curr) :=
+  ⟨fun _ _ => rfl, fun _ _ => rfl, fun _ _ => rfl, fun _ _ => rfl⟩
+
+/-- one iteration that continues: MCR on, tripwire true, the single step returns normally, no breakpoint matches afterwards -/
+def Cont (tw : Tripwire) (iter : Nat) (s s1 : Sim) : Prop :=
+  s.mcr = true ∧ (tripwireEval tw iter s).1 = true ∧ step s = (.ok (), s1) ∧ s1.breakpoints.any (bpCheck s1) = false
+
+/-- `n` continuing iterations in a row -/
+def Chain (tw : Tripwire) : Nat → Nat → Sim → Sim → Prop
+  | 0, _, s, sn => s = sn
+  | n + 1, iter, s, sn => ∃ s1, Cont tw iter s s1 ∧ Chain tw n (iter + 1) s1 sn
+
+/-- the iteration that stops the loop, and why -/
+def Stop (tw : Tripwire) (iter : Nat) (sn : Sim) (res : Except SimErr Pause) (s' : Sim) : Prop :=
+  (sn.mcr = false ∧ res = .ok .mcrOff ∧ s' = sn) ∨
+  (sn.mcr = true ∧ (tripwireEval tw iter sn).1 = false ∧ res = .ok .tripwire ∧ s' = sn) ∨
+  (sn.mcr = true ∧ (tripwireEval tw iter sn).1 = true ∧
+    ((step sn = (.error .halt, s') ∧ res = .ok .halt) ∨
+     (∃ e, step sn = (.error (.err e), s') ∧ res = .error e) ∨
+     (step sn = (.ok (), s') ∧ s'.breakpoints.any (bpCheck s') = true ∧ res = .ok .breakpoint)))
+
+/-- **a run executes exactly the instructions repeated single steps would** (any pure tripwire): whenever the loop returns,
+    it has made some number `n` of continuing single steps — each with the MCR on, the tripwire true, a normal return and no
+    breakpoint hit — followed by one stopping iteration, whose reason is the first of: MCR off, tripwire false, HALT, an
+    error, a breakpoint after an executed instruction -/
+theorem run_is_chain_of_steps (tw : Tripwire) (hp : PureTw tw) : ∀ (fuel iter : Nat) (s : Sim) (res : Except SimErr Pause) (s' : Sim),
+    runLoop tw fuel iter s = some (res, s') → ∃ n sn, Chain tw n iter s sn ∧ Stop tw (iter + n) sn res s' := by
+  intro fuel
+  induction fuel with
+  | zero => intro iter s res s' h; simp [runLoop] at h
+  | succ f ih =>
+    intro iter s res s' h
+    unfold runLoop at h
+    by_cases hm : s.mcr = true
+    · simp only [hm, Bool.not_true, Bool.false_eq_true, if_false] at h
+      have hpure := hp iter s
+      rcases hte : tripwireEval tw iter s with ⟨go, s1⟩
+      rw [hte] at h hpure
+      simp only at h hpure
+      subst hpure
+      cases go with
+      | false =>
+        simp only [Bool.not_false, if_true, Option.some.injEq, Prod.mk.injEq] at h
+        exact ⟨0, s1, rfl, Or.inr (Or.inl ⟨hm, by rw [Nat.add_zero, hte], h.1.symm, h.2.symm⟩)⟩
+      | true =>
+        simp only [Bool.not_true, Bool.false_eq_true, if_false] at h
+        rcases hst : step s1 with ⟨r, s2⟩
+        rw [hst] at h
+        cases r with
+        | error b =>
+          cases b with
+          | halt =>
+            simp only [Option.some.injEq, Prod.mk.injEq] at h
+            exact ⟨0, s1, rfl, Or.inr (Or.inr ⟨hm, by rw [Nat.add_zero, hte], Or.inl ⟨by rw [hst, h.2], h.1.symm⟩⟩)⟩
+          | err e =>
+            simp only [Option.some.injEq, Prod.mk.injEq] at h
+            exact ⟨0, s1, rfl, Or.inr (Or.inr ⟨hm, by rw [Nat.add_zero, hte], Or.inr (Or.inl ⟨e, by rw [hst, h.2], h.1.symm⟩)⟩)⟩
+        | ok u =>
+          simp only at h
+          by_cases hb : s2.breakpoints.any (bpCheck s2) = true
+          · simp only [hb, if_true, Option.some.injEq, Prod.mk.injEq] at h
+            exact ⟨0, s1, rfl, Or.inr (Or.inr ⟨hm, by rw [Nat.add_zero, hte], Or.inr (Or.inr ⟨by rw [hst, h.2], by rw [← h.2]; exact hb, h.1.symm⟩)⟩)⟩
+          · simp only [hb, Bool.false_eq_true, if_false] at h
+            obtain ⟨n, sn, hc, hs⟩ := ih (iter + 1) s2 res s' h
+            refine ⟨n + 1, sn, ⟨s2, ⟨hm, by rw [hte], hst, by simpa using hb⟩, hc⟩, ?_⟩
+            have : iter + (n + 1) = iter + 1 + n := by omega
+            rw [this]; exact hs
+    · have hm' : s.mcr = false := by simpa using hm
+      simp only [hm', Bool.not_false, if_true, Option.some.injEq, Prod.mk.injEq] at h
+      exact ⟨0, s, rfl, Or.inl ⟨hm', h.1.symm, h.2.symm⟩⟩
+
+/-- conversely, a chain of continuing steps followed by a stopping iteration is what the loop returns (with enough fuel) -/
+theorem chain_of_steps_is_run (tw : Tripwire) (hp : PureTw tw) : ∀ (n iter : Nat) (s sn : Sim) (res : Except SimErr Pause) (s' : Sim),
+    Chain tw n iter s sn → Stop tw (iter + n) sn res s' → runLoop tw (n + 1) iter s = some (res, s') := by
+  intro n
+  induction n with
+  | zero =>
+    intro iter s sn res s' hc hs
+    cases hc
+    unfold runLoop
+    have hpure := hp iter s
+    simp only [Nat.add_zero] at hs
+    rcases hs with ⟨hm, hr, he⟩ | ⟨hm, ht, hr, he⟩ | ⟨hm, ht, hs⟩
+    · simp [hm, hr, he]
+    · rcases hte : tripwireEval tw iter s with ⟨go, s1⟩
+      rw [hte] at ht hpure; simp only at ht hpure; subst hpure ht
+      simp [hm, hr, he]
+    · rcases hte : tripwireEval tw iter s with ⟨go, s1⟩
+      rw [hte] at ht hpure; simp only at ht hpure; subst hpure ht
+      rcases hs with ⟨hst, hr⟩ | ⟨e, hst, hr⟩ | ⟨hst, hb, hr⟩
+      · simp [hm, hst, hr]
+      · simp [hm, hst, hr]
+      · simp [hm, hst, hr, hb]
+  | succ n ih =>
+    intro iter s sn res s' hc hs
+    obtain ⟨s1, ⟨hm, ht, hst, hb⟩, hc'⟩ := hc
+    have hpure := hp iter s
+    have : iter + (n + 1) = iter + 1 + n := by omega
+    rw [this] at hs
+    have hrec := ih (iter + 1) s1 sn res s' hc' hs
+    rw [runLoop]
+    rcases hte : tripwireEval tw iter s with ⟨go, s0⟩
+    rw [hte] at ht hpure; simp only at ht hpure; subst hpure ht
+    simp only [hm, Bool.not_true, Bool.false_eq_true, if_false, hst, hb]
+    exact hrec
+
 def obligations : List Lean.Name :=
-  [``loop_unfold, ``mcr_off_stops, ``fuel_mono, ``limit_reached_stops, ``first_step_always, ``over_out_condition,
+  [``run_is_chain_of_steps, ``chain_of_steps_is_run, ``pure_public, ``loop_unfold, ``mcr_off_stops, ``fuel_mono, ``limit_reached_stops, ``first_step_always, ``over_out_condition,
    ``step_out_at_depth_zero, ``limit_split, ``comparator_table, ``bp_check_spec, ``runWhile_epilogue]
 
 end Lc3V.C13
